@@ -446,6 +446,14 @@ pub fn run(cx: &RunCtx) -> i32 {
     acc.merge(racc);
     acc.count("random_grammars", n_rand as u64);
 
+    // (1c) clone sweep over statically typed parsers (hand-written Clone impls)
+    let cwords: Vec<String> = all_inputs(&super::c13clone::ALPHABET, cx.t(4, 5)).iter().map(|w| w.iter().collect()).collect();
+    let clacc = for_each_index(32, cx.threads, 1, |acc, shard| {
+        let mine: Vec<String> = cwords.iter().skip(shard).step_by(32).cloned().collect();
+        super::c13clone::sweep(acc, &mine, &|_| true);
+    });
+    acc.merge(clacc);
+
     // (2) + (3)
     let reference = sequential_reference();
     let mut rng = Rng::derive(seed, 0xCAC4E, 0);
@@ -473,7 +481,7 @@ pub fn run(cx: &RunCtx) -> i32 {
         cx,
         acc,
         Finish {
-            rule: format!("(1) every grammar with <= {size} nodes over a class with repetitions, folds, validation, all recovery strategies, labels, map_err, memoized, with_state and context providers: a pool of 3 inputs <= 3 over {{a,b,é}} mixing accepted and rejected ones; every 8th grammar with ALL {} histories of (input, parse|check) steps of length <= {} through one parser value (others: 12 sampled histories), consecutive steps through different wrappers (original, clone, &, &&, Box, Rc, Arc, boxed(), Either::Left, Either::Right; every 4th through an Rc handle held for the whole history); {n_rand} random grammars (a third recursive / mutually recursive) with 6 random histories of length 2..6. The k-th result (acceptance, output with extents, full error list, inspector state, probe trace, logical step count) must equal a freshly built parser's. (2) Cache::get() at a new input lifetime for every step of random histories; histories [prefix view, whole string, prefix, whole] over inputs that share their start address, for every cut of every pool string. (3) {rounds} rounds of 2..8 threads x 24 parses sharing 6 Send+Sync parsers (5 under Miri: no regex) (text, regex, memoized, recovery, folds) behind Arc<dyn Parser> and a static Cache: every result equals the sequential reference; start/finish events through one atomic clock. (4) the thread workload under Miri with different scheduler seeds (thorough: TSan). Non-trivial: histories of >= 2 steps over a pool with both accepted and rejected inputs; distinct interleavings", seqs.len(), cx.t(3, 4)),
+            rule: format!("(1) every grammar with <= {size} nodes over a class with repetitions, folds, validation, all recovery strategies, labels, map_err, memoized, with_state and context providers: a pool of 3 inputs <= 3 over {{a,b,é}} mixing accepted and rejected ones; every 8th grammar with ALL {} histories of (input, parse|check) steps of length <= {} through one parser value (others: 12 sampled histories), consecutive steps through different wrappers (original, clone, &, &&, Box, Rc, Arc, boxed(), Either::Left, Either::Right; every 4th through an Rc handle held for the whole history); {n_rand} random grammars (a third recursive / mutually recursive) with 6 random histories of length 2..6. The k-th result (acceptance, output with extents, full error list, inspector state, probe trace, logical step count) must equal a freshly built parser's. (1c) clone sweep: 48 statically typed parsers covering the combinators with hand-written Clone impls, each with asymmetric non-default settings (separator flags and bounds, repetition bounds, delimiters, recovery strategies with three distinct sub-parsers, Pratt operators with distinct powers / associativities, configure closures, labels, folds, text / regex parsers, recursive handles with the defining handle dropped) x all words <= {} over {{a,b,',',(,),1,space}}: a fresh parser, the original after cloning, its clone and the clone's clone must agree on acceptance, output and errors in parse and check mode. (2) Cache::get() at a new input lifetime for every step of random histories; histories [prefix view, whole string, prefix, whole] over inputs that share their start address, for every cut of every pool string. (3) {rounds} rounds of 2..8 threads x 24 parses sharing 6 Send+Sync parsers (5 under Miri: no regex) (text, regex, memoized, recovery, folds) behind Arc<dyn Parser> and a static Cache: every result equals the sequential reference; start/finish events through one atomic clock. (4) the thread workload under Miri with different scheduler seeds (thorough: TSan). Non-trivial: histories of >= 2 steps over a pool with both accepted and rejected inputs; distinct interleavings", seqs.len(), cx.t(3, 4), cx.t(4, 5)),
             exhaustive: false,
             exhaustive_note: "histories: all sequences up to the stated length for every 8th enumerated grammar".into(),
             assumptions: vec![
@@ -485,6 +493,8 @@ pub fn run(cx: &RunCtx) -> i32 {
                 ("steps_via_Either::Right".into(), 1000),
                 ("steps_via_Arc".into(), 1000),
                 ("cache_history_steps".into(), 1000),
+                ("clone_sweep_cases".into(), 100_000),
+                ("clone_sweep_accepting_cases".into(), 10_000),
                 ("same_address_history_steps".into(), 1000),
                 ("concurrent_parses".into(), 10_000),
                 ("parses_started_while_another_was_running".into(), 100),
